@@ -20,6 +20,7 @@
  */
 #include "verif_common.h"
 #include "spec_int.h"
+#include "spec_str.h"
 #include <stdio.h>
 #include <stdlib.h>
 #include <string.h>
@@ -47,6 +48,9 @@
 #define SH_CMP 3        /* (int64, int64) -> bool */
 #define SH_BIN_BOOL 4   /* (bool, bool) -> bool */
 #define SH_UN_BOOL 5    /* bool -> bool */
+#define SH_STRCMP 6     /* (const char*, const char*) -> bool : string == / != by content */
+#define SH_BIN_F 7      /* (double, double) -> double */
+#define SH_CMP_F 8      /* (double, double) -> bool */
 #define SH_AT 10        /* (DynArray*, int64) -> T */
 #define SH_SET 11       /* (DynArray*, int64, T) -> int64 */
 #define SH_POP 12       /* DynArray* -> T */
@@ -68,6 +72,18 @@
 #define SHAPE_andb SH_BIN_BOOL
 #define SHAPE_orb SH_BIN_BOOL
 #define SHAPE_notb SH_UN_BOOL
+#define SHAPE_streq SH_STRCMP
+#define SHAPE_strne SH_STRCMP
+#define SHAPE_addf SH_BIN_F
+#define SHAPE_subf SH_BIN_F
+#define SHAPE_mulf SH_BIN_F
+#define SHAPE_divf SH_BIN_F
+#define SHAPE_eqf SH_CMP_F
+#define SHAPE_nef SH_CMP_F
+#define SHAPE_ltf SH_CMP_F
+#define SHAPE_lef SH_CMP_F
+#define SHAPE_gtf SH_CMP_F
+#define SHAPE_gef SH_CMP_F
 #define SHAPE_at_int SH_AT
 #define SHAPE_at_float SH_AT
 #define SHAPE_at_string SH_AT
@@ -97,6 +113,19 @@
 #define SPEC_andb(a, b) ((a) && (b))
 #define SPEC_orb(a, b) ((a) || (b))
 #define SPEC_notb(a) (!(a))
+/* strings: content equality (contracts/spec_str.h); floats: the C double operation on (a, b) in that order */
+#define SPEC_streq(a, b) spec_streq(a, b)
+#define SPEC_strne(a, b) (!spec_streq(a, b))
+#define SPEC_addf(a, b) ((a) + (b))
+#define SPEC_subf(a, b) ((a) - (b))
+#define SPEC_mulf(a, b) ((a) * (b))
+#define SPEC_divf(a, b) ((a) / (b))
+#define SPEC_eqf(a, b) ((a) == (b))
+#define SPEC_nef(a, b) ((a) != (b))
+#define SPEC_ltf(a, b) ((a) < (b))
+#define SPEC_lef(a, b) ((a) <= (b))
+#define SPEC_gtf(a, b) ((a) > (b))
+#define SPEC_gef(a, b) ((a) >= (b))
 #define TMPL_SPEC TMPL_CAT(SPEC_, VERIF_TMPL)
 
 /* corner cases on the full domain for the operators whose generic value needs two 64-bit multipliers / dividers compared
@@ -136,13 +165,31 @@
 #if VERIF_MODE == M_VALUE
 #define POST2(r, a, b) ((r) == TMPL_SPEC(a, b))
 #define POST1(r, a) ((r) == TMPL_SPEC(a))
+#define POSTF(r, a, b) (spec_f64_bits(r) == spec_f64_bits(TMPL_SPEC(a, b)))     /* bit pattern: signed zeros, infinities, NaNs included */
 #elif VERIF_MODE == M_CORNER
 #define POST2(r, a, b) TMPL_CORNER(r, a, b)
 #define POST1(r, a) 1
+/* float * and /: facts on the FULL domain that pin the operation and the operand order (the bounded value obligation carries the
+ * generic product / quotient): neutral element by bit pattern, sign rule, x/x, x/inf, 0*x */
+#define F_SIGN(x) (spec_f64_bits(x) >> 63)
+#define F_NAN(x) ((x) != (x))
+#define F_FIN(x) (!F_NAN(x) && (x) != __builtin_inf() && (x) != -__builtin_inf())
+#define CORNERF_mulf(r, a, b) ((F_NAN(a) || (b) != 1.0 || spec_f64_bits(r) == spec_f64_bits(a)) && (F_NAN(b) || (a) != 1.0 || spec_f64_bits(r) == spec_f64_bits(b)) && \
+                               (F_NAN(r) || F_SIGN(r) == (F_SIGN(a) ^ F_SIGN(b))) && (!F_FIN(b) || (a) != 0.0 || (r) == 0.0))
+#define CORNERF_divf(r, a, b) ((F_NAN(a) || (b) != 1.0 || spec_f64_bits(r) == spec_f64_bits(a)) && (F_NAN(r) || F_SIGN(r) == (F_SIGN(a) ^ F_SIGN(b))) && \
+                               (!F_FIN(a) || (a) == 0.0 || (a) != (b) || (r) == 1.0) && (!F_FIN(a) || F_NAN(b) || F_FIN(b) || (r) == 0.0))
+#define CORNERF_addf(r, a, b) 1
+#define CORNERF_subf(r, a, b) 1
+#define POSTF(r, a, b) TMPL_CAT(CORNERF_, VERIF_TMPL)(r, a, b)
 #else
 #define POST2(r, a, b) 1
 #define POST1(r, a) 1
 #endif
+#ifndef POSTF
+#define POSTF(r, a, b) 1
+#endif
+/* a string argument: a NUL-terminated string of length <= SPEC_STRMAX, arbitrary bytes, in its own buffer */
+#define TMPL_STR_OK(p) (VERIF_FRESH(p, SPEC_STRMAX + 1) && (p)[SPEC_STRMAX] == 0)
 
 /* ---- ghost state of the unit: ONE struct ---- */
 struct tmpl_ghost {
@@ -247,6 +294,29 @@ static bool TMPL_FN(bool a)
 __CPROVER_requires(1)
 __CPROVER_assigns()
 __CPROVER_ensures(POST1(__CPROVER_return_value, a));
+#elif TMPL_SHAPE == SH_STRCMP
+static bool TMPL_FN(const char *a, const char *b)
+__CPROVER_requires(TMPL_STR_OK(a) && TMPL_STR_OK(b))
+__CPROVER_assigns()
+__CPROVER_ensures(POST2(__CPROVER_return_value, a, b));
+#elif TMPL_SHAPE == SH_BIN_F
+/* -DVERIF_FMASK=<k>: bounded stand-in for * and / (two 53-bit multipliers / dividers compared do not close on the full domain):
+ * operands whose encoding has its k low mantissa bits zero - every sign, every exponent, zeros, subnormals, infinities, NaNs,
+ * 52-k significant fraction bits */
+#ifdef VERIF_FMASK
+#define TMPL_FDOM(x) ((spec_f64_bits(x) & ((((uint64_t)1) << (VERIF_FMASK)) - 1)) == 0)
+#else
+#define TMPL_FDOM(x) 1
+#endif
+static double TMPL_FN(double a, double b)
+__CPROVER_requires(TMPL_FDOM(a) && TMPL_FDOM(b))
+__CPROVER_assigns()
+__CPROVER_ensures(POSTF(__CPROVER_return_value, a, b));
+#elif TMPL_SHAPE == SH_CMP_F
+static bool TMPL_FN(double a, double b)
+__CPROVER_requires(1)
+__CPROVER_assigns()
+__CPROVER_ensures(POST2(__CPROVER_return_value, a, b));
 #elif TMPL_SHAPE == SH_AT
 static TMPL_ET TMPL_FN(DynArray *xs, int64_t i)
 __CPROVER_requires(__verif_t.calls == 0 && __verif_t.exited == 0)
@@ -310,6 +380,7 @@ __CPROVER_ensures(__verif_t.exited == 0);
 
 /* ---- entries: uninitialised locals = arbitrary arguments (witness mode: named in_* globals) ---- */
 int64_t in_a, in_b, in_i, in_v;
+struct tmpl_str { char b[SPEC_STRMAX + 1]; } in_sa, in_sb;     /* witness mode: the two strings (last byte forced to NUL) */
 #ifdef VERIF_WITNESS
 #define WIT(stmt) stmt
 #else
@@ -369,6 +440,33 @@ void h_tmpl(void)
     bool r = TMPL_FN(a);
     VERIF_COVER(r);
     VERIF_COVER(!r);
+#elif TMPL_SHAPE == SH_STRCMP
+    const char *a, *b;
+#ifdef VERIF_WITNESS
+    for (int k = 0; k < SPEC_STRMAX; k++) { in_sa.b[k] = (char)nondet_u8(); in_sb.b[k] = (char)nondet_u8(); }
+    in_sa.b[SPEC_STRMAX] = 0; in_sb.b[SPEC_STRMAX] = 0; a = in_sa.b; b = in_sb.b;
+#endif
+    bool r = TMPL_FN(a, b);
+    VERIF_COVER(r);
+    VERIF_COVER(!r);
+#elif TMPL_SHAPE == SH_BIN_F
+    double a, b;
+#ifdef VERIF_WITNESS
+    in_a = nondet_i64(); in_b = nondet_i64(); memcpy(&a, &in_a, 8); memcpy(&b, &in_b, 8);     /* named inputs = bit patterns */
+#endif
+    double r = TMPL_FN(a, b);
+    VERIF_COVER(r > 1.0);
+    VERIF_COVER(r != r /* NaN results are inside the domain */);
+    VERIF_COVER(a != a);
+#elif TMPL_SHAPE == SH_CMP_F
+    double a, b;
+#ifdef VERIF_WITNESS
+    in_a = nondet_i64(); in_b = nondet_i64(); memcpy(&a, &in_a, 8); memcpy(&b, &in_b, 8);
+#endif
+    bool r = TMPL_FN(a, b);
+    VERIF_COVER(r && a > 1.0);
+    VERIF_COVER(!r && b < -1.0);
+    VERIF_COVER(a != a);
 #elif TMPL_SHAPE == SH_AT
     DynArray *xs; int64_t i;
     WIT(in_i = nondet_i64(); i = in_i;)
